@@ -116,6 +116,9 @@ let () =
              let t = { sid; key = int_of_string key; n = int_of_string n; root = raw_of_hex given; truel = None } in
              Hashtbl.replace trees tid t;
              string_of_bytes (run_root sha_bytes (store_fn sid []) (n_of_int t.n))
+           | "treeq", [tid; sid; key; n] ->
+             Hashtbl.replace trees tid { sid; key = int_of_string key; n = int_of_string n; root = raw_of_hex given; truel = None };
+             given
            | "badroot", [tid; hx] -> (Hashtbl.find trees tid).root <- raw_of_hex hx; "ok"
            | "reader", [_] -> fixed := (given = "noskip"); given
            | "stat", _ -> given
